@@ -1,6 +1,8 @@
 /* C03.finish.layout: padd_sqfs (lib/common/src/writer/finish.c), loop-free,
- * every image size below 2^62 and every device block size 1..2^32
- * (gensquashfs accepts any --devblksz >= 1024), against the file contract.
+ * every image size below 2^62; the device block size is a concrete case
+ * (-DBLK; gensquashfs accepts any --devblksz >= 1024): with a symbolic block
+ * size the remainder identity needs two 64 bit dividers and neither SAT nor
+ * z3/cvc5 finish in 3 min. Against the file contract.
  * sqfs_writer_finish passes super.bytes_used = file size at super block time
  * (C14.finish.bytes_used); this harness takes that equality as its requires.
  *
@@ -16,10 +18,25 @@
 #include <stdio.h>
 #include "verif.h"
 #include "sqfs/predef.h"
+#ifndef SIZEBITS
+#define SIZEBITS 62
+#endif
 
 static unsigned g_callocs;
 static size_t g_calloc_n;
 static void *g_calloc_buf;
+
+/* calloc contract: zeroed buffer of n * size bytes or NULL */
+void *calloc(size_t n, size_t size)
+{
+	g_callocs += 1;
+	g_calloc_n = n * size;
+	if (verif_nd_bool("calloc_fails"))
+		return NULL;
+	g_calloc_buf = malloc(n * size);
+	__CPROVER_assume(g_calloc_buf != NULL);
+	return g_calloc_buf;
+}
 
 #include "lib/common/src/writer/finish.c"
 
@@ -59,10 +76,14 @@ void perror(const char *s) { (void)s; }
 void harness(void)
 {
 	sqfs_u64 size = verif_nd_u64("size");
+#ifdef BLK
+	size_t blk = BLK;	/* concrete case: see the header comment */
+#else
 	size_t blk = verif_nd_size("devblksize");
+#endif
 	int ret;
 
-	VERIF_ASSUME(size >= sizeof(sqfs_super_t) && size <= ((sqfs_u64)1 << 62));
+	VERIF_ASSUME(size >= sizeof(sqfs_super_t) && size <= ((sqfs_u64)1 << SIZEBITS));
 	VERIF_ASSUME(blk >= 1 && blk <= ((size_t)1 << 32));
 	g_fsize = size;
 	g_file.get_size = stub_get_size;
@@ -73,17 +94,18 @@ void harness(void)
 	VERIF_ASSERT(ret == 0 || ret == -1, "C03.finish.layout.error");
 	VERIF_ASSERT(g_wr_calls <= 1, "C03.finish.layout.pad_write");
 	if (g_wr_calls == 1)
-		VERIF_ASSERT(g_wr_off == size && g_wr_n >= 1 && g_wr_n < blk,
-			     "C03.finish.layout.pad_write");
+		VERIF_ASSERT(g_wr_off == size && g_wr_n >= 1 && g_wr_n < blk &&
+			     g_callocs == 1 && g_wr_buf == g_calloc_buf &&
+			     g_calloc_n == g_wr_n, "C03.finish.layout.pad_write");
 	if (ret == 0) {
 		VERIF_ASSERT(g_faults == 0, "C03.finish.layout.error");
 		VERIF_ASSERT(g_fsize % blk == 0 && g_fsize >= size &&
 			     g_fsize - size < blk, "C03.finish.layout.padded");
 		VERIF_COVER(g_wr_calls == 0);
-		VERIF_COVER(g_wr_calls == 1 && blk == 4096);
-		VERIF_COVER(g_wr_calls == 1 && blk == 1000);
+		VERIF_COVER(g_wr_calls == 1 || blk == 1);
+		VERIF_COVER((g_wr_calls == 1 && g_wr_n == blk - 1) || blk == 1);
 	} else {
-		VERIF_COVER(g_wr_calls == 1);
-		VERIF_COVER(g_wr_calls == 0);
+		VERIF_COVER(g_wr_calls == 1 || blk == 1);
+		VERIF_COVER(g_wr_calls == 0 || blk == 1);
 	}
 }
